@@ -149,6 +149,75 @@ def write_store(store, fmt, path, core=None):
                 w.write_core_properties(core)
 
 
+# Order in SDK-written files is process dependent: submodel references, isCaseOf and refersTo live in Python sets of
+# References whose hash involves the class object (hash((self.__class__, self.key)), a memory address), the example
+# data builds statements / annotations / submodel elements from sets of Referables (identity hash), and zip members
+# carry the time of writing.  Everything the harness derives inputs from (leaf enumeration, damaged copies,
+# permutations) therefore goes through these canonical renderings - every collection without an order in the
+# metamodel sorted - so that a run is a function of (VERIF_SEED, tree) only.
+SET_KEYS = {"isCaseOf", "refersTo", "valueReferencePairs"}
+
+
+def canonical_doc(x, key=None, parent_type=None):
+    """a copy of a JSON document with every list that has no order in the metamodel sorted"""
+    if isinstance(x, dict):
+        return {k: canonical_doc(v, k, x.get("modelType")) for k, v in x.items()}
+    if isinstance(x, list):
+        l = [canonical_doc(v) for v in x]
+        if key in SET_KEYS or key in UNORDERED_KEYS or (key == "value" and parent_type in UNORDERED_VALUE_OF):
+            l.sort(key=lambda v: json.dumps(v, sort_keys=True))
+        return l
+    return x
+
+
+def canonical_json_bytes(path):
+    return json.dumps(canonical_doc(json.load(open(path, encoding="utf-8")))).encode("utf-8")
+
+
+XML_UNORDERED = {"assetAdministrationShells", "submodels", "conceptDescriptions", "submodelElements", "qualifiers",
+                 "extensions", "supplementalSemanticIds", "specificAssetIds", "isCaseOf", "refersTo",
+                 "embeddedDataSpecifications", "statements", "annotations", "description", "displayName",
+                 "valueReferencePairs"}
+
+
+def canonical_xml_bytes(data):
+    from lxml import etree
+    root = etree.fromstring(data)
+    for el in reversed(list(root.iter())):          # children before parents
+        if not isinstance(el.tag, str):
+            continue
+        name = etree.QName(el).localname
+        par = etree.QName(el.getparent()).localname if el.getparent() is not None else None
+        if name in XML_UNORDERED or (name == "value" and par in ("submodelElementCollection", "multiLanguageProperty")):
+            el[:] = sorted(el, key=lambda c: etree.tostring(c, method="c14n"))
+    return etree.tostring(root, xml_declaration=True, encoding="utf-8")
+
+
+def canonical_aasx_bytes(path):
+    """the package re-packed with fixed member times and a canonical payload"""
+    out = io.BytesIO()
+    with zipfile.ZipFile(path) as zin, zipfile.ZipFile(out, "w") as zout:
+        for item in zin.infolist():
+            data = zin.read(item.filename)
+            if item.filename == "aasx/data.json":
+                data = json.dumps(canonical_doc(json.loads(data.decode("utf-8-sig")))).encode("utf-8")
+            elif item.filename == "aasx/data.xml":
+                data = canonical_xml_bytes(data)
+            zi = zipfile.ZipInfo(item.filename, date_time=(1980, 1, 1, 0, 0, 0))
+            zi.compress_type = zipfile.ZIP_DEFLATED
+            zi.external_attr = item.external_attr
+            zout.writestr(zi, data)
+    return out.getvalue()
+
+
+def canonical_bytes(path, fmt):
+    if fmt == "json":
+        return canonical_json_bytes(path)
+    if fmt == "xml":
+        return canonical_xml_bytes(open(path, "rb").read())
+    return canonical_aasx_bytes(path)
+
+
 def damage(rng, data):
     """C09-style damage operators on a byte string"""
     if not data:
@@ -245,7 +314,7 @@ def directed_store():
 
 UNORDERED_KEYS = {"assetAdministrationShells", "submodels", "conceptDescriptions", "submodelElements", "qualifiers",
                   "extensions", "supplementalSemanticIds", "specificAssetIds", "isCaseOf", "embeddedDataSpecifications",
-                  "statements", "annotations", "description", "displayName"}
+                  "statements", "annotations", "description", "displayName", "valueReferencePairs"}
 UNORDERED_VALUE_OF = {"SubmodelElementCollection", "MultiLanguageProperty"}
 
 
@@ -767,6 +836,11 @@ def check_files(chk, rng, quick, tmp, esc_model, compared_model):
 
     def run_one(fname, path, kind, expect_success=False, data=None):
         raised, statuses, overall = call(one[fname], path)
+        if os.environ.get("C20_TRACE"):
+            import hashlib
+            with open(os.environ["C20_TRACE"], "a") as tf:
+                tf.write(f"{fname} {kind} {hashlib.md5(open(path, 'rb').read()).hexdigest() if os.path.isfile(path) else '-'} "
+                         f"{type(raised).__name__ if raised else None} {statuses}\n")
         chk.seen((fname, kind, seq[0]), nontrivial=bool(statuses))
         chk.count(f"input={kind}")
         chk.count("verdict=" + ("raised" if raised is not None else str(overall)))
@@ -812,7 +886,11 @@ def check_files(chk, rng, quick, tmp, esc_model, compared_model):
                 if fname.endswith("check_aas_example"):
                     continue
                 run_one(fname, p, f"sdk-written:{fmt}", expect_success=True)
-            data = open(p, "rb").read()
+            data = canonical_bytes(p, fmt)      # same data, process-independent bytes
+            pc = wf(data, ext)
+            for fname in by_fmt[ext]:
+                if not fname.endswith("check_aas_example"):
+                    run_one(fname, pc, f"canonical-rendering:{fmt}", expect_success=True)
             for _ in range(3 if quick else 25):
                 d = damage(rng, data)
                 pd = wf(d, ext)
@@ -830,7 +908,7 @@ def check_files(chk, rng, quick, tmp, esc_model, compared_model):
         if raised is not None:
             report_raise(chk, "aasx.check_aasx_files_equivalence", raised, esc_model, {"input_kind": kind, "both": True})
     # 4. equivalence: same data, other order -> SUCCESS; unordered list; different files
-    full_json = json.load(open(written[("full", "json")], encoding="utf-8"))
+    full_json = canonical_doc(json.load(open(written[("full", "json")], encoding="utf-8")))
 
     def dump(doc, name):
         p = os.path.join(tmp, name)
@@ -844,8 +922,9 @@ def check_files(chk, rng, quick, tmp, esc_model, compared_model):
     coll_path = os.path.join(tmp, "collections.json")
     write_store(collections_store(), "json", coll_path)
     sources = {"full": (full_json, written[("full", "json")]),
-               "collections": (json.load(open(coll_path, encoding="utf-8")), coll_path),
-               "example": (json.load(open(written[("all", "json")], encoding="utf-8")), written[("all", "json")])}
+               "collections": (canonical_doc(json.load(open(coll_path, encoding="utf-8"))), coll_path),
+               "example": (canonical_doc(json.load(open(written[("all", "json")], encoding="utf-8"))),
+                           written[("all", "json")])}
     xml_of = {}
     for sname, (doc, pjson) in sources.items():
         with open(pjson, encoding="utf-8") as f:
@@ -978,23 +1057,17 @@ def check_files(chk, rng, quick, tmp, esc_model, compared_model):
     # 5. single-leaf mutations of the full example as the second file
     pdir = os.path.join(tmp, "directed.json")
     write_store(directed_store(), "json", pdir)
-    directed_json = json.load(open(pdir, encoding="utf-8"))
+    directed_json = canonical_doc(json.load(open(pdir, encoding="utf-8")))
     bases = {"full": (full_json, written[("full", "json")]), "directed": (directed_json, pdir)}
     all_leaves = [("full", p, fr) for p, fr in leaves(full_json)
                   if p and p[-1] not in SKIP_KEYS and fr and fr[-1][1] is not None]
     directed_leaves = [("directed", p, fr) for p, fr in leaves(directed_json)
                        if p and p[-1] not in SKIP_KEYS and fr and fr[-1][1] is not None]
-    if quick:
-        rng.shuffle(all_leaves)
-        # keep every (class, attribute) at least once
-        seen, chosen = set(), []
-        for l in all_leaves:
-            if l[2][-1] not in seen:
-                seen.add(l[2][-1])
-                chosen.append(l)
-        chosen += all_leaves[:max(0, 160 - len(chosen))]
-        all_leaves = chosen
+    # a fixed enumeration in both tiers: every scalar leaf of both documents, in document order (no sampling, so
+    # that no attribute - e.g. administration.templateId - is covered in one run and missed in another)
     all_leaves = all_leaves + directed_leaves
+    chk.cov["mutation_targets"] = len({(fr[-1][0],) + tuple(k for k in p if isinstance(k, str))[-4:]
+                                       for _, p, fr in all_leaves})
     undetected = {}
     nmut = 0
     for base, path, frames in all_leaves:
@@ -1056,7 +1129,7 @@ def replay(path):
                    "example": lambda: example_stores()["all"]}[rp["store"]]()
             p0 = os.path.join(tmp, "a.json")
             write_store(src, "json", p0)
-            doc = json.load(open(p0, encoding="utf-8"))
+            doc = canonical_doc(json.load(open(p0, encoding="utf-8")))
             p1 = os.path.join(tmp, "b.json")
             json.dump(permute_unordered(doc, random.Random(0), only=rp.get("permuted_only")), open(p1, "w", encoding="utf-8"))
             fn = rp["function"]
@@ -1127,7 +1200,7 @@ def replay(path):
             st = directed_store() if rp.get("store") == "directed" else example_stores()["full"]
             p1 = os.path.join(tmp, "a.json")
             write_store(st, "json", p1)
-            doc = json.load(open(p1, encoding="utf-8"))
+            doc = canonical_doc(json.load(open(p1, encoding="utf-8")))
             d = mutate_leaf(doc, tuple(rp["path"]))
             p2 = os.path.join(tmp, "b.json")
             json.dump(d, open(p2, "w", encoding="utf-8"))
